@@ -845,11 +845,20 @@ pub fn gen_acc(schemes: &[&str], rng: &mut Rng, thorough: bool, cases: &mut Vec<
                 ]);
                 let raw = match rng.below(8) {
                     6 | 7 => {
-                        // lists of 0..=5 byte strings (client_info reports 2 and 3 only)
+                        // lists of 0..=5 byte strings (client_info reports 2 and 3 only); the strings
+                        // may be non-ASCII or ill-formed UTF-8 (from_utf8_lossy applies)
                         let n = rng.below(6);
                         let mut p = Vec::new();
                         for _ in 0..n {
-                            p.extend_from_slice(&rlp_bytes(&ascii_word(rng)));
+                            let w = match rng.below(4) {
+                                0 => "é😀".as_bytes().to_vec(),
+                                1 => {
+                                    let l = rng.below(6) as usize;
+                                    rng.bytes(l)
+                                }
+                                _ => ascii_word(rng),
+                            };
+                            p.extend_from_slice(&rlp_bytes(&w));
                         }
                         rlp_list(&p)
                     }
